@@ -125,7 +125,7 @@ def history(ctx, lw, rng, kind):
         first = None
     observed_once = False
     for i in range(n_steps):
-        reconfig = ["edit", "param", "input", "circuit_same", "circuit_heralds", "herald_in_place"]
+        reconfig = ["edit", "param", "input", "circuit_same", "circuit_heralds", "herald_in_place", "rejected"]
         if kind == "Sampler":
             reconfig += ["source_mut", "source_new", "backend", "detector"]
             obs = ["read", "sample", "n_inputs", "n_outputs"]
@@ -264,6 +264,12 @@ def history(ctx, lw, rng, kind):
             elif step == "counting":
                 obj.photon_counting = not obj.photon_counting
                 changed_since_obs = "detector_mode_toggled"
+            elif step == "rejected":
+                # a reconfiguration that must be (or happens to be) refused: afterwards the object must still behave like a
+                # fresh one with the settings it *reports* - a refused request may leave no residue
+                n_rej = rejected_reconfiguration(ctx, lw, rng, obj, kind, params, trace)
+                if n_rej:
+                    changed_since_obs = "read_after_rejected_reconfiguration"
             else:
                 if not observed_once and step != "read":
                     ctx.bucket("sample_before_read:" + kind)
@@ -294,6 +300,120 @@ def history(ctx, lw, rng, kind):
             else:
                 ctx.count("other_property_observations:" + ob["prop"])
     ctx.case((kind, tuple(t[0] for t in trace[1:])), nontrivial, sample={"history": trace})
+
+
+def rejected_reconfiguration(ctx, lw, rng, obj, kind, params, trace):
+    """Makes 1-3 requests that a sampler is expected to refuse. Requests that are accepted after all are ordinary
+    reconfigurations (the twin follows the reported settings). Returns the number of requests that raised."""
+    emu, State = lw.emulator, lw.State
+    n_raised = 0
+    for _ in range(int(rng.integers(1, 4))):
+        opts = ["input_len", "input_type", "circuit_type", "edit_out_of_range", "edit_bad_value", "param_out_of_bounds"]
+        if kind == "Sampler":
+            opts += ["source_value"] * 3 + ["source_type", "backend_name", "detector_type", "detector_value",
+                                            "n_inputs_bad_args"]
+        else:
+            opts += ["post_select_type", "ps_rule_bad", "counting_type"]
+        what = str(rng.choice(opts))
+        bad_unit = [1.5, -0.2, float("nan"), float("inf"), 1 + 1e-9, -1e-12, "0.9", None, True, 2, [0.9]]
+        try:
+            if what == "input_len":
+                k = obj.circuit.input_modes
+                obj.input_state = State([1] + [0] * (k if rng.random() < 0.5 else max(0, k - 2)))
+            elif what == "input_type":
+                obj.input_state = [1, 0, 0][:max(1, obj.circuit.input_modes)] if rng.random() < 0.5 else None
+            elif what == "circuit_type":
+                obj.circuit = rng.choice([None, 3, "circuit"]) if rng.random() < 0.7 else np.eye(obj.circuit.n_modes)
+            elif what == "edit_out_of_range":
+                cc = obj.circuit
+                nn = cc.n_modes - len(cc._internal_modes)
+                r = rng.random()
+                if r < 0.3:
+                    cc.bs(nn - 1, nn, 0.3)
+                elif r < 0.5:
+                    cc.ps(nn, 0.4)
+                elif r < 0.7:
+                    cc.loss(-nn - 1, 0.2)
+                elif r < 0.85:
+                    cc.mode_swaps({0: nn})
+                else:
+                    cc.add(lw.Unitary(lw.random_unitary(nn + 1, seed=3)), 0)
+            elif what == "edit_bad_value":
+                cc = obj.circuit
+                nn = cc.n_modes - len(cc._internal_modes)
+                r = rng.random()
+                if r < 0.35 and nn >= 2:
+                    cc.bs(0, 1, float(rng.choice([1.5, -0.1, float("nan")])))
+                elif r < 0.6:
+                    cc.loss(0, float(rng.choice([1.5, -0.1, float("nan")])))
+                elif r < 0.8 and nn >= 2:
+                    cc.bs(0, 1, 0.5, float(rng.choice([1.5, -0.1])))
+                else:
+                    cc.ps(0, 0.3, float(rng.choice([1.5, -0.1])))
+            elif what == "param_out_of_bounds":
+                if not params:
+                    continue
+                p = params[int(rng.integers(len(params)))]
+                if p.has_bounds():
+                    p.set(p.max_bound + float(rng.choice([1e-9, 0.5, 10])))
+                else:
+                    p.set(rng.choice(["x", None]) if rng.random() < 0.5 else [0.3])
+            elif what == "source_value":
+                which = str(rng.choice(["brightness", "purity", "indistinguishability", "probability_threshold"]))
+                v = bad_unit[int(rng.integers(len(bad_unit)))]
+                if which == "purity" and rng.random() < 0.4:
+                    v = float(rng.choice([0.5, 0.3, 0.0, 0.5 - 1e-12]))
+                trace[-1].append([which, repr(v)])
+                setattr(obj.source, which, v)
+            elif what == "source_type":
+                obj.source = rng.choice([0.9, "source", 1]) if rng.random() < 0.7 else emu.Detector()
+            elif what == "backend_name":
+                obj.backend = rng.choice(["clifford", "Permanent", "", "perm", 3])
+            elif what == "detector_type":
+                obj.detector = rng.choice([0.9, "detector", 1]) if rng.random() < 0.7 else emu.Source()
+            elif what == "detector_value":
+                which = str(rng.choice(["efficiency", "p_dark", "photon_counting"]))
+                v = bad_unit[int(rng.integers(len(bad_unit)))] if which != "photon_counting" else rng.choice([2, "yes", None, 0.5])
+                trace[-1].append([which, repr(v)])
+                setattr(obj.detector, which, v)
+            elif what == "n_inputs_bad_args":
+                r = rng.random()
+                if r < 0.3:
+                    obj.sample_N_inputs(-1)
+                elif r < 0.5:
+                    obj.sample_N_inputs(2.5)
+                elif r < 0.7:
+                    obj.sample_N_inputs(10, seed="seed")
+                elif r < 0.85:
+                    obj.sample_N_inputs(10, post_select=3)
+                else:
+                    obj.sample_N_outputs(10, min_detection="1")
+            elif what == "post_select_type":
+                obj.post_select = rng.choice([3, "rule", 0.5]) if rng.random() < 0.7 else [1, 2]
+            elif what == "ps_rule_bad":
+                ps = obj.post_select
+                if not hasattr(ps, "add"):
+                    continue
+                r = rng.random()
+                if r < 0.3:
+                    ps.add(0.5, 1)
+                elif r < 0.6:
+                    ps.add(0, 1.5)
+                elif r < 0.8:
+                    ps.add((0, "1"), 1)
+                else:
+                    ps.add(0, ("a",))
+            elif what == "counting_type":
+                obj.photon_counting = rng.choice([2, "yes", None, 0.5])
+            trace[-1].append(what + ": accepted")
+            ctx.bucket("odd_reconfiguration_accepted:" + what)
+        except Exception as e:  # noqa: BLE001
+            n_raised += 1
+            trace[-1].append(what + ": raised " + type(e).__name__)
+            ctx.bucket("reconfiguration_rejected:" + what)
+    if n_raised:
+        ctx.bucket("reconfiguration_rejected")
+    return n_raised
 
 
 def leaky_unitary(rng, n, j):
